@@ -1,6 +1,6 @@
 """C03 — integer->string is the canonical numeral: tables, dispatch, widths (DESIGN §4)."""
 from rules import tbl_write_integer as I
-from rules.core import guarded
+from rules.core import guarded, guarded_soft
 from rules import extra as X
 
 INFO = {
@@ -21,7 +21,7 @@ def run(col, configs, tier):
         guarded(col, X.rule_step_helper_agreement, facts)
         guarded(col, X.rule_jeaiii, facts)
         guarded(col, X.rule_chunk_padding, facts)
-        guarded(col, X.rule_u128_count_chunks, facts)
+        guarded_soft(col, X.rule_u128_count_chunks, facts)
         guarded(col, X.rule_index_widening, facts)
         guarded(col, X.rule_naive_count_stages, facts)
         from rules import c08
